@@ -34,8 +34,10 @@ def call(label):
 
 def rest_kinds(p):
     """kinds of the untouched prefix of a context: a mix, so that roots in the rest can alias"""
-    base = ['prd', 'ext', 'cns']
-    return [base[j] if j < 3 else 'ext' for j in range(p)]
+    # object variables at positions 0 and 3: their first temporaries are the registers the back ends borrow as an
+    # additional scratch register (x86-64: rax, AArch64: X10), so a borrowed-and-not-restored register is visible
+    base = ['prd', 'ext', 'ext', 'cns']
+    return [base[j] if j < 4 else 'ext' for j in range(p)]
 
 
 def types_for(xtors_T=None, xtors_U=None):
